@@ -1,7 +1,7 @@
 (* C03 — spends, revisions, renewals need content-binding authorisation. The signature oracle [vt] holds
    the (key, sighash, signature) triples the real Ed25519 accepts; which content a sighash binds is C12. *)
 From Coq Require Import ZArith List Bool.
-From Sia Require Import Prim.Result Prim.Tok Policy.Model Ledger.Types Ledger.Mid Ledger.Validate Ledger.Apply Ledger.Proofs Ledger.Auth.
+From Sia Require Import Prim.Result Prim.Tok Policy.Model Ledger.Types Ledger.Mid Ledger.Validate Ledger.Apply Ledger.Proofs Ledger.Auth Ledger.V1Gates Ledger.V1Sigs.
 Import ListNotations.
 Open Scope Z_scope.
 
@@ -53,3 +53,21 @@ Theorem C03_foundation_update_authorised : forall s t a, validate_foundation_upd
   exists i, In i (t2_sci t) /\ sco_addr (sce_out (p_val (i2_parent i))) = s_found_mgmt s.
 Proof. exact foundation_update_authorised. Qed.
 Print Assumptions C03_foundation_update_authorised.
+
+(* ---- v1 transactions ---- *)
+(* every accepted v1 siacoin input reveals unlock conditions hashing to its parent's address (the parent being known from
+   the block so far or the supplement), after its timelock and the parent's maturity *)
+Theorem C03_v1_inputs_reveal_parent_conditions : forall H net vt se sd s m t ts, validate_txn1 H net vt se sd s m t ts = Ok tt ->
+  Forall (fun i => i1_timelock i <= child s /\ is_spent m (i1_parent i) = false /\
+                   exists p lf, sc_element m ts (i1_parent i) = Some (p, lf) /\ i1_uh i = sco_addr (sce_out p) /\ sce_maturity p <= child s) (t1_sci t).
+Proof. exact v1_inputs_gated. Qed.
+Print Assumptions C03_v1_inputs_reveal_parent_conditions.
+
+(* every signature of an accepted v1 transaction names a listed input (or revision) and one of its keys, respects its
+   timelock, covers existing fields and, for an ed25519 key, verifies under that key; entropy keys never sign; the table
+   lists each input, siafund input and revision exactly once *)
+Theorem C03_v1_signatures : forall vt se sd s t, validate_signatures vt se sd s t = Ok tt ->
+  exists table, Forall (sig_ok vt se sd s table) (t1_sigs t) /\
+    map fst table = (map i1_parent (t1_sci t) ++ map f1_parent (t1_sfi t) ++ map r1_parent (t1_rev t))%list.
+Proof. exact v1_signatures_ok. Qed.
+Print Assumptions C03_v1_signatures.
